@@ -523,7 +523,7 @@ func variation(s twinSpec) string {
 
 func cases(tier string, seed int64) []fw.Case {
 	var cs []fw.Case
-	n, blocks := 3, 340
+	n, blocks := 8, 340
 	if tier == "thorough" {
 		n, blocks = 20, 700
 	}
@@ -559,7 +559,7 @@ func init() {
 		Cases:       cases,
 		Run:         run,
 		MinCounters: []string{"blocks_compared", "twin_pairs_compared", "repeated_evaluations", "restarts", "queries", "env_names_swept"},
-		Workers:     4,
+		Workers:     5,
 		TimeoutS:    2400,
 	})
 }
